@@ -105,7 +105,7 @@ func EMul(a, b E) E {
 	}
 }
 func EScalar(a E, s F) E { return E{Mul(a[0], s), Mul(a[1], s)} }
-func EIsZero(a E) bool  { return a[0] == 0 && a[1] == 0 }
+func EIsZero(a E) bool   { return a[0] == 0 && a[1] == 0 }
 
 // EInv: 1/(a0 + a1 X) = (a0 - a1 X)/(a0^2 - 7 a1^2). Inverse of zero is zero.
 func EInv(a E) E {
